@@ -246,11 +246,24 @@ fn one_session(kind: &str, m: &HashMap<String, String>, seed: u64, i: usize, lev
         };
         let mut cells = vec![];
         for t in &forms {
-            let c = parse_all(t).map_err(|e| format!("generator produced unreadable text: {}", e))?;
-            if c.len() != 1 {
-                return Err(format!("generator text is not one datum: {}", t));
+            // the generators write well-formed texts of exactly one datum: a text the reader of the code under test
+            // rejects, splits or panics on is an outcome of the code under test, recorded like an abort
+            let r = std::panic::catch_unwind(|| parse_all(t));
+            let why = match &r {
+                Ok(Ok(c)) if c.len() == 1 => None,
+                Ok(Ok(c)) => Some(format!("the reader reads {} data in a text of one datum", c.len())),
+                Ok(Err(e)) => Some(format!("the reader rejects a well-formed text: {}", e.chars().take(160).collect::<String>())),
+                Err(_) => Some("the reader panics on a well-formed text".to_string()),
+            };
+            if let Some(why) = why {
+                let st = crate::enc::SymTab::new();
+                let j = json!({"id": i + 1, "syms": st.to_json(), "forms": [], "runs": [], "text": [t],
+                               "abort": format!("{} -- {}", why, t.chars().take(200).collect::<String>()),
+                               "kind": kind, "tags": ["unreadable"], "seed": sseed,
+                               "reproduce": format!("mwverif gen {} seed={} only={}", kind, seed, i)});
+                return Ok(vec![j.to_string()]);
             }
-            cells.push(c.into_iter().next().unwrap());
+            cells.push(r.unwrap().unwrap().into_iter().next().unwrap());
         }
         let cfgs = cfgs_for(&level, sseed);
         let mut extra = extra;
